@@ -99,6 +99,30 @@ Proof.
   change (f 0) with (f (0 : nat)). rewrite map_nth with (d := 0). rewrite seq_nth by exact H. reflexivity.
 Qed.
 
+(* ------------------------------------------------------------------ small list facts *)
+
+Lemma flat_map_shift {A} (f : nat -> list A) i n : flat_map f (seq i n) = flat_map (fun k => f (i + k)) (seq 0 n).
+Proof.
+  revert f i. induction n as [|n IH]; intros f i; [reflexivity|].
+  cbn [seq flat_map]. rewrite Nat.add_0_r. f_equal. rewrite (IH f (S i)). rewrite (IH (fun k => f (i + k)) 1).
+  apply flat_map_ext. intros k. f_equal. lia.
+Qed.
+
+Lemma flat_map_singleton {A B} (g : A -> B) l : flat_map (fun k => [g k]) l = map g l.
+Proof. induction l as [|x l IH]; [reflexivity|]. cbn. rewrite IH. reflexivity. Qed.
+
+Lemma skipn_add {A} (l : list A) a b : skipn b (skipn a l) = skipn (a + b) l.
+Proof.
+  revert l. induction a as [|a IH]; intro l; [reflexivity|].
+  destruct l as [|x l]; [destruct b; reflexivity|]. cbn [skipn plus]. apply IH.
+Qed.
+
+Lemma sub_sub {A} (l : list A) a n b m : b + m <= n -> sub (sub l a n) b m = sub l (a + b) m.
+Proof.
+  intros H. unfold sub. rewrite skipn_firstn_comm, firstn_firstn, Nat.min_l by lia.
+  rewrite skipn_add. reflexivity.
+Qed.
+
 (* ------------------------------------------------------------------ checked memory access *)
 
 Definition load (buf : list N) (off n : nat) : res (list N) :=
